@@ -577,6 +577,65 @@ def _mapped_variants(ctx, case, da, pts):
                         return
 
 
+class CoeffKindChanger(IdentityMapper):
+    """rewrites every numeric coefficient into an EQUAL number of another kind"""
+
+    def map_constant(self, c):
+        return _other_kind(c)
+
+
+def _other_kind(c):
+    import numpy as np
+    if isinstance(c, (bool, np.bool_)):
+        return int(c)
+    if isinstance(c, float):
+        return int(c) if c.is_integer() else c
+    if isinstance(c, int):
+        return float(c) if abs(c) < 2**53 else c
+    if isinstance(c, (np.integer,)):
+        return int(c)
+    if isinstance(c, np.floating):
+        return float(c)
+    return c
+
+
+@check("C19.polykinds")
+def c_polykinds(ctx, case):
+    """'... also after a mapper has rewritten their coefficients': a rewrite that changes the
+    KIND of a coefficient and not its value (2.0**53 -> 2**53, True -> 1, np.int64(3) -> 3) is
+    a rewrite -- the polynomial that comes back holds the new coefficients and evaluates with
+    their arithmetic (2**53 + x at x = 1 is 2**53 + 1 exactly, which no double holds)."""
+    (coeffs,) = case
+    import numpy as np
+    S = Polynomial(X, tuple((e, c) for e, c in enumerate(coeffs)))
+    ctx.case(None)
+    ctx.count("poly_kind_rewrites")
+    try:
+        M = CoeffKindChanger()(S)
+    except Exception as ex:  # noqa: BLE001
+        ctx.fail("C19.polykinds", case, f"raised:{type(ex).__name__}",
+                 f"rewriting the coefficients of {S.data} raised {type(ex).__name__}: {ex}")
+        return
+    want = [_other_kind(c) for c in coeffs]
+    got = [c for _, c in getattr(M, "data", ())]
+    same = len(got) == len(want) and all(type(a) is type(b) and a == b for a, b in zip(got, want))
+    if not same:
+        ctx.fail("C19.polykinds", case, "kind-rewrite-dropped",
+                 f"a mapper rewrote the coefficients {coeffs!r} to {want!r}; the polynomial that "
+                 f"came back holds {got!r}")
+        return
+    for xv in (1, F(1, 3), 3):
+        w = sum(c * xv ** e for e, c in enumerate(want))
+        g = refsem.outcome(lambda: peval_lib(M, xv))
+        inexact = any(isinstance(c, float) for c in want)     # (summation order rounds)
+        if g[0] != "v" or (not refsem.values_equal(g[1], w) if inexact
+                           else (g[1] != w or type(g[1]) is not type(w))):
+            ctx.fail("C19.polykinds", case, "value-after-kind-rewrite",
+                     f"polynomial with coefficients {want!r} (after the rewrite) at x={xv}: "
+                     f"{short(g)} instead of {w!r}")
+            return
+
+
 @check("C19.bigpoly")
 def c_bigpoly(ctx, case):
     """Products / powers of polynomials with THOUSANDS of term pairs, most of which cancel:
@@ -740,6 +799,13 @@ def workload(ctx):
             if ctx.mine("bigpoly"):
                 ctx.case(("bigpoly", kind, n), True, n=0)
                 ctx.run("C19.bigpoly", (kind, n, rng.randrange(10**6)))
+    import numpy as np
+    kpool = [2.0**53, 2.0, 1.0, -3.0, 0.5, True, False, np.int64(3), np.int32(-2), np.float64(4.0),
+             np.float32(0.5), np.bool_(True), 7, -1, 2**53 + 1, 1.5]
+    for i in range(ctx.per_shard(ctx.pick(200, 4000))):
+        coeffs = tuple(rng.choice(kpool) for _ in range(rng.randint(1, 4)))
+        ctx.case(("polykinds", repr(coeffs)), True, n=0)
+        ctx.run("C19.polykinds", (coeffs,))
     # quotient node
     for i in range(ctx.per_shard(ctx.pick(3000, 60000))):
         hi = rng.choice([10, 1000, 2 ** 53 - 1, 2 ** 62, 2 ** 90])
@@ -755,6 +821,7 @@ def workload(ctx):
     ctx.floor("fft_calls", 120)
     ctx.floor("symfft_calls", 20)
     ctx.floor("poly_ops", 5000)
+    ctx.floor("poly_kind_rewrites", 150)
     ctx.floor("poly_divmod_spellings", 1000)
     ctx.floor("big_polynomial_term_pairs", 50000)
     ctx.floor("poly_mapped", 1000)
